@@ -146,5 +146,19 @@ pub fn hdr_rows(quick: bool) -> Vec<HdrRow> {
             }
         }
     }
+    // header lengths sweeping across the pending-buffer capacity (512 bytes at memLevel 1) with a header CRC and
+    // output rooms that leave the buffer partly drained: every fill level of the pending buffer at the moment the
+    // two CRC bytes are due, in particular exactly 0, 1 and 2 free bytes
+    let name_range: Vec<usize> = if quick { (488..=530).collect() } else { (470..=560).collect() };
+    for nl in name_range {
+        for cl in [None, Some(3usize)] {
+            let gz = GzFields { text: false, mtime: 7, xfl: 0, os: 3, extra: None, name: field(Some(nl), 6, true), comment: field(cl, 7, true), hcrc: true };
+            for room in [1usize, 2, 3, 5, 7, 100, 509, 510, 511] {
+                let cfg = DCfg { level: 6, strategy: 0, wbits: 15, mem_level: 1, wrap: Wrap::Gzip };
+                rows.push(HdrRow { cfg, gz: gz.clone(), sched: DSched { steps: vec![], tail_room: room } });
+                rows.push(HdrRow { cfg, gz: gz.clone(), sched: DSched { steps: vec![DStep::Feed { n: 0, room, flush: 0 }], tail_room: AMPLE } });
+            }
+        }
+    }
     rows
 }
